@@ -4,8 +4,10 @@ import (
 	"buf.build/gen/go/bufbuild/protovalidate/protocolbuffers/go/buf/validate"
 	"github.com/pentops/j5/gen/j5/ext/v1/ext_j5pb"
 	"github.com/pentops/j5/gen/j5/list/v1/list_j5pb"
+	"github.com/pentops/j5/gen/j5/schema/v1/schema_j5pb"
 	"github.com/pentops/j5/internal/j5s/protoprint/optionreflect"
 	"github.com/pentops/j5/lib/j5schema"
+	"google.golang.org/genproto/googleapis/api/annotations"
 	"google.golang.org/protobuf/proto"
 	"google.golang.org/protobuf/reflect/protodesc"
 	"google.golang.org/protobuf/reflect/protoreflect"
@@ -165,22 +167,67 @@ func HarnessPrintFileOptions() {
 	withKey := ndBool("keyOption")
 	withMsgOpts := ndBool("messageOptions")
 	fieldOpts := &descriptorpb.FieldOptions{}
-	vOpt := &validate.FieldConstraints{Required: proto.Bool(true)}
+	vOpt, vLeaves := verifValidateShape(ndChoice("validateOptionShape", 8))
 	lOpt := &list_j5pb.FieldConstraint{Type: &list_j5pb.FieldConstraint_String_{String_: &list_j5pb.StringRules{
 		WellKnown: &list_j5pb.StringRules_OpenText{OpenText: &list_j5pb.OpenTextRules{Searching: &list_j5pb.SearchingConstraint{Searchable: true}}}}}}
 	kOpt := &ext_j5pb.PSMKeyFieldOptions{PrimaryKey: true}
 	mOpt := &ext_j5pb.MessageOptions{Type: &ext_j5pb.MessageOptions_Object{Object: &ext_j5pb.ObjectMessageOptions{}}}
 	pOpt := &ext_j5pb.PSMOptions{EntityName: "thing"}
+	psmPart := withMsgOpts && !withKey && ndBool("psmEntityPart")
+	if psmPart {
+		pOpt.EntityPart = schema_j5pb.EntityPart_ENTITY_PART_KEYS.Enum()
+	}
 	msgOpts := &descriptorpb.MessageOptions{}
 	emptyOpts := &descriptorpb.MessageOptions{} // a message with options and nothing else
+	singleOpts := &descriptorpb.FieldOptions{}
+	// one further variation at a time, on the file without key and message options
+	variant := 0
+	if !withKey && !withMsgOpts {
+		variant = ndChoice("variant(0 none,1-3 single option source layout,4 second method option,5 two map entries,6 http rule with body)", 7)
+	}
+	// an enum, one of its values, a service and its method carry options too
+	enumOpts, valueOpts := &descriptorpb.EnumOptions{}, &descriptorpb.EnumValueOptions{}
+	svcOpts, methodOpts := &descriptorpb.ServiceOptions{}, &descriptorpb.MethodOptions{}
+	eOpt := &ext_j5pb.EnumOptions{NoDefault: true, InfoFields: []*ext_j5pb.EnumInfoField{{Name: "n", Label: "l"}}}
+	evOpt := &ext_j5pb.EnumValueOptions{Description: "d", Info: map[string]string{"k1": "v1"}}
+	twoInfo := variant == 5
+	if twoInfo {
+		evOpt.Info["k0"] = "v0" // Range over the map takes either order (engine.maporder)
+	}
+	sOpt := &ext_j5pb.ServiceOptions{Type: &ext_j5pb.ServiceOptions_StateQuery_{StateQuery: &ext_j5pb.ServiceOptions_StateQuery{Entity: "thing"}}}
+	hOpt := &annotations.HttpRule{Pattern: &annotations.HttpRule_Get{Get: "/v1/x"}}
+	httpBody := variant == 6
+	if httpBody {
+		hOpt = &annotations.HttpRule{Pattern: &annotations.HttpRule_Post{Post: "/v1/x"}, Body: "*"}
+	}
+	jOpt := &ext_j5pb.MethodOptions{Label: "L", StateQuery: &ext_j5pb.StateQueryMethodOptions{Get: true}}
+	withMethodOpt := variant == 4
 	fdp := &descriptorpb.FileDescriptorProto{Name: proto.String("p/v1/x.proto"), Package: proto.String("p.v1"), Syntax: proto.String("proto3"),
-		Dependency: []string{"buf/validate/validate.proto", "j5/ext/v1/annotations.proto", "j5/list/v1/annotations.proto"},
+		Dependency: []string{"buf/validate/validate.proto", "google/api/annotations.proto", "j5/ext/v1/annotations.proto", "j5/list/v1/annotations.proto"},
+		EnumType: []*descriptorpb.EnumDescriptorProto{{Name: proto.String("E"), Options: enumOpts, Value: []*descriptorpb.EnumValueDescriptorProto{
+			{Name: proto.String("E_UNSPECIFIED"), Number: proto.Int32(0)}, {Name: proto.String("E_ONE"), Number: proto.Int32(1), Options: valueOpts}}}},
+		Service: []*descriptorpb.ServiceDescriptorProto{{Name: proto.String("S"), Options: svcOpts, Method: []*descriptorpb.MethodDescriptorProto{
+			{Name: proto.String("Do"), InputType: proto.String(".p.v1.M"), OutputType: proto.String(".p.v1.Empty"), Options: methodOpts}}}},
 		MessageType: []*descriptorpb.DescriptorProto{{Name: proto.String("M"), Options: msgOpts, Field: []*descriptorpb.FieldDescriptorProto{
 			{Name: proto.String("a"), Number: proto.Int32(1), Type: str, Label: opt, Options: fieldOpts},
 			{Name: proto.String("b"), Number: proto.Int32(2), Type: str, Label: opt},
+			{Name: proto.String("c"), Number: proto.Int32(3), Type: str, Label: opt, Options: singleOpts},
 		}}, {Name: proto.String("Empty"), Options: emptyOpts}}}
+	// field c carries one option; where the source had it decides the layout:
+	// no location, on the field's line, on a line of its own, over several lines
+	cLoc := 0
+	if variant >= 1 && variant <= 3 {
+		cLoc = variant
+	}
+	if cLoc > 0 {
+		span := [][]int32{nil, {12, 15, 38}, {13, 4, 30}, {13, 4, 15, 5}}[cLoc]
+		fdp.SourceCodeInfo = &descriptorpb.SourceCodeInfo{Location: []*descriptorpb.SourceCodeInfo_Location{
+			{Path: []int32{4, 0, 2, 2}, Span: []int32{12, 2, 16, 4}},
+			{Path: []int32{4, 0, 2, 2, 8, 1159}, Span: span},
+		}}
+	}
 	// source information that puts the (empty) message option of Empty on several lines
-	if withMsgOpts && ndBool("optionWrittenOverSeveralLines") {
+	if withMsgOpts && !withKey && ndBool("optionWrittenOverSeveralLines") {
 		fdp.SourceCodeInfo = &descriptorpb.SourceCodeInfo{Location: []*descriptorpb.SourceCodeInfo_Location{
 			{Path: []int32{4, 1}, Span: []int32{20, 0, 24, 1}},
 			{Path: []int32{4, 1, 7, 555000}, Span: []int32{21, 2, 22, 4}},
@@ -190,6 +237,14 @@ func HarnessPrintFileOptions() {
 	if verifNative() {
 		proto.SetExtension(fieldOpts, validate.E_Field, vOpt)
 		proto.SetExtension(fieldOpts, list_j5pb.E_Field, lOpt)
+		proto.SetExtension(singleOpts, validate.E_Field, vOpt)
+		proto.SetExtension(enumOpts, ext_j5pb.E_Enum, eOpt)
+		proto.SetExtension(valueOpts, ext_j5pb.E_EnumValue, evOpt)
+		proto.SetExtension(svcOpts, ext_j5pb.E_Service, sOpt)
+		proto.SetExtension(methodOpts, annotations.E_Http, hOpt)
+		if withMethodOpt {
+			proto.SetExtension(methodOpts, ext_j5pb.E_Method, jOpt)
+		}
 		if withKey {
 			proto.SetExtension(fieldOpts, ext_j5pb.E_Key, kOpt)
 		}
@@ -213,6 +268,18 @@ func HarnessPrintFileOptions() {
 			fo = append(fo, j5schema.VerifFakeOption{Desc: u.VerifFakeExtension("j5.ext.v1", "key", 555101, 1, kOpt.ProtoReflect().Descriptor()), Value: protoreflect.ValueOfMessage(kOpt.ProtoReflect())})
 		}
 		u.VerifSetFakeOptions("p.v1.M.a", fo)
+		u.VerifSetFakeOptions("p.v1.M.c", fo[:1])
+		one := func(pkg, name string, number int32, index int, m proto.Message) j5schema.VerifFakeOption {
+			return j5schema.VerifFakeOption{Desc: u.VerifFakeExtension(pkg, name, number, index, m.ProtoReflect().Descriptor()), Value: protoreflect.ValueOfMessage(m.ProtoReflect())}
+		}
+		u.VerifSetFakeOptions("p.v1.E", []j5schema.VerifFakeOption{one("j5.ext.v1", "enum", 555000, 6, eOpt)})
+		u.VerifSetFakeOptions("p.v1.E.E_ONE", []j5schema.VerifFakeOption{one("j5.ext.v1", "enum_value", 555000, 7, evOpt)})
+		u.VerifSetFakeOptions("p.v1.S", []j5schema.VerifFakeOption{one("j5.ext.v1", "service", 555101, 2, sOpt)})
+		mo := []j5schema.VerifFakeOption{one("google.api", "http", 72295728, 0, hOpt)}
+		if withMethodOpt {
+			mo = append(mo, one("j5.ext.v1", "method", 555000, 5, jOpt))
+		}
+		u.VerifSetFakeOptions("p.v1.S.Do", mo)
 		if withMsgOpts {
 			u.VerifSetFakeOptions("p.v1.M", []j5schema.VerifFakeOption{
 				{Desc: u.VerifFakeExtension("j5.ext.v1", "message", 555000, 3, mOpt.ProtoReflect().Descriptor()), Value: protoreflect.ValueOfMessage(mOpt.ProtoReflect())},
@@ -260,7 +327,7 @@ func HarnessPrintFileOptions() {
 		}
 		return n
 	}
-	verifAssert(count("(buf.validate.field)") == 1 && count("(j5.list.v1.field)") == 1, "field-options-printed-once-each")
+	verifAssert(count("(buf.validate.field)") == 2 && count("(j5.list.v1.field)") == 1, "field-options-printed-once-each")
 	wantKey, wantMsg, wantPsm := 0, 0, 0
 	if withKey {
 		wantKey = 1
@@ -270,4 +337,129 @@ func HarnessPrintFileOptions() {
 	}
 	verifAssert(count("(j5.ext.v1.key)") == wantKey, "key-option-printed-iff-set")
 	verifAssert(count("(j5.ext.v1.message)") == wantMsg && count("(j5.ext.v1.psm)") == wantPsm, "message-options-printed-also-on-a-message-without-fields")
+
+	// the printed options, read back: every scalar of every option value comes
+	// back under its path from the extension name, whatever mix of
+	// `(ext).sub.path = v`, `{ ... }` literals and `[ ... ]` lists was printed
+	got, ok := rdParse(first)
+	verifAssert(ok && got != nil && len(got.messages) == 2, "printed-options-are-in-the-option-grammar")
+	if !ok || got == nil || len(got.messages) != 2 {
+		return
+	}
+	var gm, ge *rdMessage
+	for _, c := range got.messages {
+		if c.name == "M" {
+			gm = c
+		}
+		if c.name == "Empty" {
+			ge = c
+		}
+	}
+	verifAssert(gm != nil && ge != nil && len(gm.fields) == 3, "messages-and-fields-read-back")
+	if gm == nil || ge == nil || len(gm.fields) != 3 {
+		return
+	}
+	wantField := append([]rdLeaf{}, vLeaves...)
+	wantField = append(wantField, rdLeaf{"(j5.list.v1.field)/string/open_text/searching/searchable", "true"})
+	if withKey {
+		wantField = append(wantField, rdLeaf{"(j5.ext.v1.key)/primary_key", "true"})
+	}
+	wantM, wantE := []rdLeaf{}, []rdLeaf{}
+	if withMsgOpts {
+		wantM = append(wantM, rdLeaf{"(j5.ext.v1.message)/object", "{}"}, rdLeaf{"(j5.ext.v1.psm)/entity_name", "\"thing\""})
+		if psmPart {
+			wantM = append(wantM, rdLeaf{"(j5.ext.v1.psm)/entity_part", "ENTITY_PART_KEYS"})
+		}
+		wantE = append(wantE, rdLeaf{"(j5.ext.v1.message)/object", "{}"})
+	}
+	for _, f := range gm.fields {
+		if f.name == "a" {
+			verifAssert(rdSameLeaves(f.opts, wantField), "field-option-values-read-back")
+		} else if f.name == "c" {
+			verifAssert(rdSameLeaves(f.opts, vLeaves), "single-field-option-value-read-back")
+		} else {
+			verifAssert(len(f.opts) == 0, "field-without-options-has-none")
+		}
+	}
+	verifAssert(rdSameLeaves(gm.opts, wantM), "message-option-values-read-back")
+	verifAssert(rdSameLeaves(ge.opts, wantE), "empty-message-option-values-read-back")
+
+	// enum, enum value, service and method options
+	verifAssert(len(got.enums) == 1 && len(got.services) == 1 && len(got.services[0].methods) == 1, "enum-and-service-read-back")
+	if len(got.enums) != 1 || len(got.services) != 1 || len(got.services[0].methods) != 1 {
+		return
+	}
+	wantEnum := []rdLeaf{{"(j5.ext.v1.enum)/no_default", "true"}, {"(j5.ext.v1.enum)/info_fields/0/name", "\"n\""},
+		{"(j5.ext.v1.enum)/info_fields/0/label", "\"l\""}, {"E_ONE:(j5.ext.v1.enum_value)/description", "\"d\""}}
+	const info = "E_ONE:(j5.ext.v1.enum_value)/info/"
+	if twoInfo { // map entries are printed as a list of {key, value}, sorted by key
+		wantEnum = append(wantEnum, rdLeaf{info + "0/key", "\"k0\""}, rdLeaf{info + "0/value", "\"v0\""}, rdLeaf{info + "1/key", "\"k1\""}, rdLeaf{info + "1/value", "\"v1\""})
+	} else {
+		wantEnum = append(wantEnum, rdLeaf{info + "0/key", "\"k1\""}, rdLeaf{info + "0/value", "\"v1\""})
+	}
+	verifAssert(rdSameLeaves(got.enums[0].opts, wantEnum), "enum-and-enum-value-options-read-back")
+	verifAssert(rdSameLeaves(got.services[0].opts, []rdLeaf{{"(j5.ext.v1.service)/state_query/entity", "\"thing\""}}), "service-option-read-back")
+	wantMethod := []rdLeaf{{"(google.api.http)/get", "\"/v1/x\""}}
+	if httpBody {
+		wantMethod = []rdLeaf{{"(google.api.http)/post", "\"/v1/x\""}, {"(google.api.http)/body", "\"*\""}}
+	}
+	if withMethodOpt {
+		wantMethod = append(wantMethod, rdLeaf{"(j5.ext.v1.method)/label", "\"L\""}, rdLeaf{"(j5.ext.v1.method)/state_query/get", "true"})
+	}
+	verifAssert(rdSameLeaves(got.services[0].methods[0].opts, wantMethod), "method-options-read-back")
+}
+
+// rdSameLeaves: the same set of (path, value) leaves, each once
+func rdSameLeaves(got, want []rdLeaf) bool {
+	if len(got) != len(want) {
+		return false
+	}
+	for _, w := range want {
+		n := 0
+		for _, g := range got {
+			if g.path == w.path && g.value == w.value {
+				n++
+			}
+		}
+		if n != 1 {
+			return false
+		}
+	}
+	return true
+}
+
+// verifValidateShape: (buf.validate.field) values of different shapes, with the
+// leaves a reader of the printed option must find (strings in text-format
+// escaping)
+func verifValidateShape(shape int) (*validate.FieldConstraints, []rdLeaf) {
+	const x = "(buf.validate.field)"
+	str := func(r *validate.StringRules) *validate.FieldConstraints {
+		return &validate.FieldConstraints{Type: &validate.FieldConstraints_String_{String_: r}}
+	}
+	switch shape {
+	case 1: // two fields, one a message with two fields
+		c := str(&validate.StringRules{MinLen: proto.Uint64(1), MaxLen: proto.Uint64(5)})
+		c.Required = proto.Bool(true)
+		return c, []rdLeaf{{x + "/required", "true"}, {x + "/string/min_len", "1"}, {x + "/string/max_len", "5"}}
+	case 2: // a list of two strings
+		return str(&validate.StringRules{In: []string{"a", "b"}}), []rdLeaf{{x + "/string/in/0", "\"a\""}, {x + "/string/in/1", "\"b\""}}
+	case 3: // a string needing escapes
+		return str(&validate.StringRules{Pattern: proto.String("a\"b\\c\n'\u00e9;")}), []rdLeaf{{x + "/string/pattern", "\"a\\\"b\\\\c\\n'\\u00e9;\""}}
+	case 4: // a list of one
+		return str(&validate.StringRules{In: []string{"x"}}), []rdLeaf{{x + "/string/in/0", "\"x\""}}
+	case 5: // nested messages below a message with two fields
+		c := &validate.FieldConstraints{Type: &validate.FieldConstraints_Repeated{Repeated: &validate.RepeatedRules{MinItems: proto.Uint64(1),
+			Items: str(&validate.StringRules{MinLen: proto.Uint64(2)})}}}
+		return c, []rdLeaf{{x + "/repeated/min_items", "1"}, {x + "/repeated/items/string/min_len", "2"}}
+	case 6: // numeric boundaries, negative
+		c := &validate.FieldConstraints{Type: &validate.FieldConstraints_Int32{Int32: &validate.Int32Rules{
+			LessThan: &validate.Int32Rules_Lt{Lt: 2147483647}, GreaterThan: &validate.Int32Rules_Gt{Gt: -2147483648}}}}
+		return c, []rdLeaf{{x + "/int32/lt", "2147483647"}, {x + "/int32/gt", "-2147483648"}}
+	case 7: // a list of messages and an enum
+		c := &validate.FieldConstraints{Ignore: validate.Ignore_IGNORE_IF_UNPOPULATED.Enum(), Cel: []*validate.Constraint{
+			{Id: proto.String("c1"), Expression: proto.String("this > 1")}, {Id: proto.String("c2"), Message: proto.String("m"), Expression: proto.String("this < 9")}}}
+		return c, []rdLeaf{{x + "/ignore", "IGNORE_IF_UNPOPULATED"}, {x + "/cel/0/id", "\"c1\""}, {x + "/cel/0/expression", "\"this > 1\""},
+			{x + "/cel/1/id", "\"c2\""}, {x + "/cel/1/message", "\"m\""}, {x + "/cel/1/expression", "\"this < 9\""}}
+	}
+	return &validate.FieldConstraints{Required: proto.Bool(true)}, []rdLeaf{{x + "/required", "true"}}
 }
